@@ -3,6 +3,7 @@ Axiom audit of the main refinement theorems: run `lake env lean Iggy/Log/RefineA
 only `propext`, `Classical.choice`, `Quot.sound` may appear.
 -/
 import Iggy.Log.Refine
+import Iggy.Log.RefineRun
 open Iggy.Log
 
 #print axioms create_inv
@@ -11,12 +12,10 @@ open Iggy.Log
 #print axioms flush_refines
 #print axioms save_refines
 #print axioms segGetByOffset_refines
-#print axioms getByOffset_refines_partial
-#print axioms getByOffset_refines_partial'
-#print axioms getFirst_refines_partial
-#print axioms getLast_refines_partial
-#print axioms getLast_refines_of_no_cache
-#print axioms getNext_refines_partial
+#print axioms getByOffset_refines
+#print axioms getFirst_refines
+#print axioms getLast_refines
+#print axioms getNext_refines
 #print axioms getByTimestamp_refines_partial
 #print axioms restart_refines
 #print axioms restart_refines'
@@ -29,7 +28,24 @@ open Iggy.Log
 #print axioms evict_refines
 #print axioms Reach.inv
 #print axioms Reach.append_ok
-#print axioms getByOffset_counterexample
-#print axioms getFirst_counterexample
-#print axioms getLast_counterexample
 #print axioms getByTimestamp_counterexample
+-- RefineRun
+#print axioms Reach.stepOp
+#print axioms Reach.runOps
+#print axioms reach_of_run
+#print axioms Reach.simulates
+#print axioms runOps_simulates
+#print axioms reach_specInv
+#print axioms reach_specDedupInv
+#print axioms reach_offsets_consecutive
+#print axioms reach_offsets_firstStart
+#print axioms reach_poll_exact
+#print axioms reach_poll_exact'
+#print axioms reach_poll_sublist
+#print axioms reach_ids_nodup
+#print axioms reach_ids_remembered
+#print axioms reach_counts
+#print axioms reach_size_exact
+#print axioms reach_seg_counts
+#print axioms reach_restart_same
+#print axioms reach_restart_poll
